@@ -1144,7 +1144,7 @@ func init() {
 	ck := &run.Check{
 		Prop:  "C16",
 		Level: "exploration",
-		Rule: "scripted-then-randomised scenarios on the real code: (1) more writers than MaxPreMergerBatches against a merger parked by the director, then Close (blocked writers must get ErrClosed) or directed merger cycles (all proceed); (2) Close while the persister is inside a stalled LowerLevelUpdate (resumed only after Close signalled stop); (3) Close while the merger waits for the persister (MaxDirtyOps); (4) synchronous NotifyMerger racing and following Close; (5) lower level stalled, failing, then resumed under writers/readers, then bounded drain; (6) free-running writers/readers/notifiers with injected delays and Close at a random moment; (7) a flood of asynchronous notifications; (8) Close with a writer parked between installing its batch and waking the merger; (9) a whole persister round completing exactly between the merger's decision to wait for it and the wait (hook merger.waitOutgoing), then writers and a synchronous notification; (10) synchronous notifications queued behind asynchronous ones for the same merger cycle; (11) Close against a lower level that fails every update promptly: Close returns after a bounded number of further update calls (counted, not timed) and none follow. Oracles: every API call returns - a call still pending while all moss goroutines are blocked and the set is stable over two stack dumps is a hang (violation); watchdog without quiescence is inconclusive; CurDirtyTopSegments and the number of accepted batches never exceed MaxPreMergerBatches; after Close, NewBatch/Snapshot/Get/ExecuteBatch(non-empty) return ErrClosed. distinct_nontrivial = distinct (scenario | outcome reached: bound reached, closed with blocked writers, ...) units.",
+		Rule: "scripted-then-randomised scenarios on the real code: (1) more writers than MaxPreMergerBatches against a merger parked by the director, then Close (blocked writers must get ErrClosed) or directed merger cycles (all proceed); (2) Close while the persister is inside a stalled LowerLevelUpdate (resumed only after Close signalled stop); (3) Close while the merger waits for the persister (MaxDirtyOps); (4) synchronous NotifyMerger racing and following Close; (5) lower level stalled, failing, then resumed under writers/readers, then bounded drain; (6) free-running writers/readers/notifiers with injected delays and Close at a random moment; (7) a flood of asynchronous notifications; (8) Close with a writer parked between installing its batch and waking the merger; (9) a whole persister round completing exactly between the merger's decision to wait for it and the wait (hook merger.waitOutgoing), then writers and a synchronous notification; (10) synchronous notifications queued behind asynchronous ones for the same merger cycle; (11) Close against a lower level that fails every update promptly: Close returns after a bounded number of further update calls (counted, not timed) and none follow; (12) the back-pressure scenarios also with batches that hold nothing but a child-collection batch (same child / own child / mixed with top-level writers): every accepted batch counts; (13) a merge operator that refuses to merge (FullMerge returns false) in every merger cycle while writers are blocked: the merger still empties the dirty top each time, so all writers must get in, and a synchronous notification and Close return once the operator relents (and the refused operand folded exactly once). Oracles: every API call returns - a call still pending while all moss goroutines are blocked and the set is stable over two stack dumps is a hang (violation); watchdog without quiescence is inconclusive; CurDirtyTopSegments and the number of accepted batches never exceed MaxPreMergerBatches; after Close, NewBatch/Snapshot/Get/ExecuteBatch(non-empty) return ErrClosed. distinct_nontrivial = distinct (scenario | outcome reached: bound reached, closed with blocked writers, ...) units.",
 		MinUnits:    6,
 		Assumptions: []string{"liveness is restated as 'returns before quiescence', which a finite run decides", "blocking while the lower level is stalled by the harness is expected; verdicts are taken only with all gates open"},
 	}
